@@ -274,23 +274,26 @@ Fixpoint oprot (f o : id) (c : octx) (k : code) : bool :=
 
 (* ---------------------------------------------------------------- deadlock checker *)
 
-Inductive res := RL (l : id) | RO (o : id).
+Inductive res := RL (l : id) (x : bool) | RO (o : id).
 Definition res_eqb (a b : res) : bool :=
-  match a, b with RL x, RL y => eqb x y | RO x, RO y => eqb x y | _, _ => false end.
+  match a, b with RL l x, RL m y => eqb l m && Bool.eqb x y | RO x, RO y => eqb x y | _, _ => false end.
 
 Variable rkl rko : id -> nat.        (* ranks of locks and onces *)
-Definition rk (r : res) : nat := match r with RL l => rkl l | RO o => rko o end.
+Definition rk (r : res) : nat := match r with RL l _ => rkl l | RO o => rko o end.
 Definition below (n : nat) (h : list res) : bool := forallb (fun r => n <? rk r) h.
 
 (* resources whose release is pending on the spine, innermost first *)
 Fixpoint pend (k : code) : list res :=
   match k with
   | CNil => []
-  | CUnlock l _ k' => RL l :: pend k'
+  | CUnlock l x k' => RL l x :: pend k'
   | COnceExit o k' => RO o :: pend k'
   | CAcc _ _ k' | CAtomic _ k' | CRecv _ k' | CClose _ k' => pend k'
   | CCrit _ _ _ k' | COnce _ _ k' | CSpawn _ k' => pend k'
   end.
+
+Fixpoint ranked (h : list res) : bool :=
+  match h with [] => true | r :: h' => below (rk r) h' && ranked h' end.
 
 (* dl h k: with the resources h held (innermost first), k acquires only resources of
    strictly smaller rank than everything it holds (so the waits-for relation is
@@ -300,11 +303,11 @@ Fixpoint dl (h : list res) (k : code) : bool :=
   match k with
   | CNil => true
   | CAcc _ _ k' | CAtomic _ k' | CClose _ k' => dl h k'
-  | CCrit l _ body k' => below (rkl l) h && dl (RL l :: h) body && dl h k'
+  | CCrit l x body k' => below (rkl l) h && dl (RL l x :: h) body && dl h k'
   | COnce o body k' => below (rko o) h && dl (RO o :: h) body && dl h k'
   | CSpawn body k' => dl [] body && dl h k'
   | CRecv c k' => is_nil h && dl h k'
-  | CUnlock l _ k' => match h with r :: h' => res_eqb r (RL l) && dl h' k' | [] => false end
+  | CUnlock l x k' => match h with r :: h' => res_eqb r (RL l x) && dl h' k' | [] => false end
   | COnceExit o k' => match h with r :: h' => res_eqb r (RO o) && dl h' k' | [] => false end
   end.
 
